@@ -421,7 +421,7 @@ def nanvar(
     d = n - ddof
     if d == 0 or n == 0:
         return _null_value_for_numpy_type(arr.dtype)
-    return (sum_sq - sum**2 / n) / d
+    return (sum_sq - np.float64(sum) ** 2 / n) / d
 
 
 def nanstd(
